@@ -127,6 +127,12 @@ def build(kind: str, dest: Path) -> None:
             except NameError:
                 _SIG = package_signatures(Program("/repo"))
             keyword_calls(tree, _SIG)
+        elif kind == "shift":
+            from icgsa.mutate import shift_powers
+            shift_powers(tree)
+        elif kind == "unroll":
+            from icgsa.mutate import unroll_list_comprehensions
+            unroll_list_comprehensions(tree)
         elif kind == "noannot":
             strip_annotations(tree)
         elif kind == "reorder":
@@ -137,7 +143,7 @@ def build(kind: str, dest: Path) -> None:
 def main() -> int:
     kinds = sys.argv[1:] or ["all"]
     if kinds == ["all"]:
-        kinds = ["reformat", "rename", "asserts", "reorder", "hoist", "noannot", "flipcmp", "swapif", "kwcalls"]
+        kinds = ["reformat", "rename", "asserts", "reorder", "hoist", "noannot", "flipcmp", "swapif", "kwcalls", "shift", "unroll"]
     props = [json.loads(l)["id"] for l in (VERIF / "properties.jsonl").read_text().splitlines() if l.strip()]
     bad = 0
     for kind in kinds:
